@@ -262,13 +262,26 @@ theorem lock_taken_only_by_with :
     lockWithSites = [("elementpath.collations", "CollationManager.__enter__"),
       ("elementpath.collations", "CollationManager._locale_call")] := by decide
 
-/-- **The decimal context is never touched**: no source file mentions `getcontext`, `setcontext`,
-`localcontext` or the predefined contexts (a private `Context(prec=30)` object is built in
-`Duration.__init__` and passed to `quantize` — that does not change the thread's context). -/
-theorem decimal_global_context_never_touched :
-    decimalGlobalContextSites = [] ∧
+/-- **The decimal context is only ever swapped inside a `with` block that restores it.**  The only
+mentions of `getcontext` / `setcontext` / `localcontext` / the predefined contexts in the package
+are three `with localcontext() as ctx:` blocks (fn:round in the 1.0 and 3.0 function sets,
+fn:round-half-to-even), each `scoped`: the body neither yields / awaits (so no suspended
+generator can keep the modified context installed) nor calls back into evaluation (so no other
+code runs under it); plus the private `Context(prec=30)` object of `Duration.__init__`, which
+never becomes the thread's context. -/
+theorem decimal_context_only_scoped :
+    decimalThreadContextSites.all (fun s => s.2.2.2 == "scoped") = true ∧
+    decimalThreadContextSites.map (fun s => (s.1, s.2.1)) =
+      [("elementpath.xpath1._xpath1_functions", "evaluate__round"),
+       ("elementpath.xpath2._xpath2_functions", "evaluate__round_half_to_even"),
+       ("elementpath.xpath30._xpath30_functions", "evaluate__round")] ∧
     decimalPrivateContextSites = [("elementpath.datatypes.datetime", "Duration.__init__")] := by
   decide
+
+/-- what such a block does to the state: nothing, whether its body returns or raises -/
+theorem local_decimal_context_restored (σ : State) (raises : Option Nat) :
+    ∃ out, withLocalDecimal σ raises = .ok out σ := by
+  cases raises <;> exact ⟨_, rfl⟩
 
 /-- **`os.environ` is never written**, and it is read only by the two gated functions that
 `envVar` / `availEnvVars` model. -/
